@@ -59,7 +59,7 @@ def main():
     print("claimed", sorted(claimed), "not_applicable", len(na))
 
 NOT_YET = {}
-WITHHELD = {"C08": "check built (pylib/props/c08.py); its reports on the unchanged tree are being triaged (fix or known finding) before it is claimed"}
+WITHHELD = {}
 NOT_YET.update(WITHHELD)
 ENGINES = [
  {"name": "pico_mon", "path": "harness/pico_mon", "serves_properties": ["C01", "C02", "C03", "C04"],
